@@ -118,6 +118,11 @@ impl ImageHeader {
                 let header = match format {
                     0x01 => {
                         // Only known format is 1 = JPEG
+                        //
+                        // The v1 JPEG header is always written as 16 octets: don't accept
+                        // another declared length, the packet would not be written back
+                        // (and hashed for certifications) as it was read.
+                        ensure_eq!(length, 16, "invalid image header length for JPEG");
                         let data = data.read_arr::<12>()?;
                         ImageHeaderV1::Jpeg { data }
                     }
